@@ -619,6 +619,7 @@ class ConcreteEngine:
             raise PathAbort('assume failed concretely')
 
     def check(self, cond, what='', sig=None):
+        self.nchecks = getattr(self, 'nchecks', 0) + 1
         if not cond:
             s_ = sig or str(what)
             for kid, rx in getattr(self, 'known_sigs', []):
@@ -1508,8 +1509,27 @@ class SymStr:
     def encode(self, *a, **k):
         raise Unmodelled('encode of symbolic string')
 
-    def translate(self, *a):
-        raise Unmodelled('translate of symbolic string')
+    def translate(self, table):
+        """str.translate with a mapping {code point: replacement str | code point | None}"""
+        if not isinstance(table, dict):
+            raise Unmodelled('translate with a non-dict table on a symbolic string')
+        out = []
+        for c in self.chars:
+            if isinstance(c, str):
+                out.extend(c.translate(table))
+                continue
+            for k, v in table.items():
+                if SymBool(self.eng, c == k):
+                    if v is None:
+                        pass
+                    elif isinstance(v, int):
+                        out.append(chr(v))
+                    else:
+                        out.extend(v)
+                    break
+            else:
+                out.append(c)
+        return mk(self.eng, out)
 
     def format(self, *a, **k):
         raise Unmodelled('format on symbolic string')
